@@ -24,6 +24,13 @@
 (* either call), and SGX verification reads the root of trust from a file  *)
 (* or fetches it from a URL (right PEM, another root, 404, garbage).       *)
 (*                                                                         *)
+(* The SHAPE of every DIGEST the verifier compares (or turns into a key)   *)
+(* is a dimension too: SHA-256(custom message) and SHA-256(attestation key *)
+(* | QE auth data) in the report data fields, the public-keys hash inside  *)
+(* the signed message, the HMAC tweaks and the app hashes on Ledger may    *)
+(* end in 0x00 (z1), in 0x00 0x00 (z2), in a blank (sp) or a line feed     *)
+(* (nl), or start with 0x00 (lz).  A genuine device reaches every class.   *)
+(*                                                                         *)
 (* HISTORIES: the tools are run more than once over the same files.  Env   *)
 (* may have the attestation gathered twice, the device's state (UD value,  *)
 (* best block, last signed tx, timestamp) changing in between and the one  *)
@@ -66,10 +73,11 @@ CONSTANTS Platforms,        \* subset of {"ledger", "sgx"}
 VARIABLES dev, cfg, alt,    \* Env: ground truth, shape of the answers, the one alteration
           net,              \* Env: [ud: "hex" | what the node does, at: which call, rootvia: "file" | "url"]
           shape,            \* Env: [site: which signature (or "all" / "none"), cls: "<r class>/<s class>"]
+          digest,           \* Env: [site: which digest (or "none"), cls: "ord" | "z1" | "z2" | "lz" | "sp" | "nl"]
           hist,             \* Env: "single" | "reattest" | "inplace" | "sameout" | "reuse0" | "two"
           pc, acc,          \* Sys: program counter, what was gathered so far
           obs               \* the observation (AttestFlowProps)
-vars == <<dev, cfg, alt, net, shape, hist, pc, acc, obs>>
+vars == <<dev, cfg, alt, net, shape, digest, hist, pc, acc, obs>>
 
 (***************************************************************************)
 (* Ground truth of a genuine device.                                       *)
@@ -140,16 +148,31 @@ SgxAlts(c) ==
     \cup AI("root", {1, 2, 3, 4, 5})           \* another self-signed root, TBS byte, signature byte;
                                                \* by URL only: 4 = HTTP 404, 5 = a body that is no PEM
 
+(***************************************************************************)
+(* Digest shapes.                                                          *)
+(***************************************************************************)
+NoDigest == [site |-> "none", cls |-> "ord"]
+DigestClasses == {"z1", "z2", "lz", "sp", "nl"}
+DigestSites(p) == IF p = "ledger" THEN {"pkh", "tw_ui", "tw_sg", "ui_hash", "s_hash"} ELSE {"cm", "ak", "pkh"}
+DigestChoices(p, fr, c, a, nt, sh) ==
+    {NoDigest} \cup
+    (IF a = [site |-> "none", idx |-> 0] /\ c = Cfg1(p, fr) /\ nt = Net("hex", 0, "file")
+        /\ sh = [site |-> "none", cls |-> "any"]
+     THEN {[site |-> st, cls |-> cl] : st \in DigestSites(p), cl \in DigestClasses} ELSE {})
+DigestAt(site) == IF digest.site = site THEN digest.cls ELSE "ord"
+\* a comparison that strips trailing zero bytes from the field first loses a digest that ends in one
+Compares(site) == ~(Bug = "rstrip" /\ DigestAt(site) \in {"z1", "z2"})
+
 Multi == hist # "single"
 \* the one alteration happens in the run that produces the verified file
 Is(site) == alt.site = site /\ (~Multi \/ acc.round = 2)
 \* histories are explored on the plain shape, typed UD values, the root from a file, any alteration that
 \* can happen in an attestation run (the onboarding answers are not asked for again)
 OnboardSites == {"dc_hdr", "dc_key", "dc_sig", "en_key", "en_sig"}
-Hists(p, fr, c, a, nt, sh) ==
+Hists(p, fr, c, a, nt, sh, dg) ==
     {"single"} \cup
     (IF c = Cfg1(p, fr) /\ nt = Net("hex", 0, "file") /\ sh = [site |-> "none", cls |-> "any"]
-        /\ a.site \notin OnboardSites
+        /\ dg = [site |-> "none", cls |-> "ord"] /\ a.site \notin OnboardSites
      THEN (IF p = "ledger" THEN {"reattest", "inplace", "sameout", "reuse0"} ELSE {"sameout", "two"})
      ELSE {})
 \* the device's blockchain state in run r (it moves on between the runs), and the UD value it was handed
@@ -295,7 +318,7 @@ Obs0(p, d, a, nt) ==
                   node_n |-> "0xn", node_url |-> "node_url", rootvia |-> nt.rootvia, root_url |-> "root_url",
                   http |-> <<>>, ud_sent |-> "", att_file |-> "no", contacted |-> "no",
                   g_err |-> "none", v_err |-> "none",
-                  sigsite |-> "none", sigclass |-> "any",
+                  sigsite |-> "none", sigclass |-> "any", digsite |-> "none", digclass |-> "ord",
                   hist |-> "single", dev_prev |-> d, prev_ok |-> "na", prevfile |-> <<>>,
                   earlier_before |-> <<>>, earlier_after |-> <<>>,
                   verify_prev |-> "na", printed_prev |-> NoPrinted,
@@ -309,19 +332,23 @@ Init == /\ acc = Acc0
              IF p = "ledger"
              THEN \E fr \in Framings : \E c \in LedgerCfgs(fr) : \E a \in LedgerAlts(fr, c) :
                   \E nt \in Nets(p, fr, c, a) : \E sh \in ShapeChoices(p, fr, c, a, nt) :
-                  \E h \in Hists(p, fr, c, a, nt, sh) :
+                  \E dg \in DigestChoices(p, fr, c, a, nt, sh) : \E h \in Hists(p, fr, c, a, nt, sh, dg) :
                     /\ dev = LedgerDev(fr, nt) /\ cfg = c /\ alt = a /\ net = nt /\ shape = sh /\ pc = "onboard"
-                    /\ hist = h
+                    /\ hist = h /\ digest = dg
                     /\ obs = [Obs0(p, LedgerDev(fr, nt), a, nt) EXCEPT !.sigsite = sh.site, !.sigclass = sh.cls,
+                                                                       !.digsite = dg.site, !.digclass = dg.cls,
                                                                        !.hist = h]
              ELSE \E c \in SgxCfgs : \E a \in SgxAlts(c) : \E nt \in Nets(p, "current", c, a) :
-                  \E sh \in ShapeChoices(p, "current", c, a, nt) : \E h \in Hists(p, "current", c, a, nt, sh) :
+                  \E sh \in ShapeChoices(p, "current", c, a, nt) :
+                  \E dg \in DigestChoices(p, "current", c, a, nt, sh) : \E h \in Hists(p, "current", c, a, nt, sh, dg) :
                     /\ dev = SgxDev(nt) /\ cfg = c /\ alt = a /\ net = nt /\ shape = sh /\ pc = "ud" /\ hist = h
+                    /\ digest = dg
                     /\ obs = [Obs0(p, SgxDev(nt), a, nt) EXCEPT !.sigsite = sh.site, !.sigclass = sh.cls,
+                                                                !.digsite = dg.site, !.digclass = dg.cls,
                                                                 !.hist = h]
 
 Go(p) == pc' = p
-Keep == UNCHANGED <<dev, cfg, alt, net, shape, hist>>
+Keep == UNCHANGED <<dev, cfg, alt, net, shape, digest, hist>>
 FailOnboard == /\ obs' = [obs EXCEPT !.g_onboard = "fail"] /\ Go("done")
 FailAttest  == /\ obs' = [obs EXCEPT !.g_attest = "fail", !.g_err = "AdminError"] /\ Go("done")
 
@@ -527,9 +554,9 @@ VerifySgx(file) ==
         chain == /\ Verifies(rc.sig, rc.tbs[2], "none", rc.tbs)            \* self-signed root
                  /\ Verifies(pca.sig, rc.tbs[2], "none", pca.msg)
                  /\ Verifies(pck.sig, pca.msg[2], "none", pck.msg)
-                 /\ HashOf(<<a.aux[1][1], a.aux[2][1]>>) = a.msg[2]
+                 /\ HashOf(<<a.aux[1][1], a.aux[2][1]>>) = a.msg[2] /\ Compares("ak")
                  /\ Verifies(a.sig, pck.msg[2], "none", a.msg)
-                 /\ (Bug = "nobind" \/ HashOf(cm) = q.msg[5])
+                 /\ (Bug = "nobind" \/ (HashOf(cm) = q.msg[5] /\ Compares("cm")))
                  /\ Verifies(q.sig, a.aux[1][1], "none", q.msg)
         msgok == Len(cm) = 8 /\ cm[1] = "POWHSM:" /\ cm[5] = "pkh"
     IN IF RootFetched /\ chain /\ msgok
@@ -599,6 +626,7 @@ NeverFourPages   == ~(Terminal /\ cfg.uip = 4 /\ obs.verify = "ok")
 NeverSecondRunOk == ~(Terminal /\ obs.hist # "single" /\ obs.verify = "ok")
 NeverInplaceOk   == ~(Terminal /\ obs.hist = "inplace" /\ obs.verify = "ok")
 NeverSecondRunAlteredFails == ~(Terminal /\ obs.hist # "single" /\ obs.alt # "none" /\ obs.verify = "fail")
+NeverDigestOk    == ~(Terminal /\ obs.digclass # "ord" /\ obs.verify = "ok")
 NeverShapedOk    == ~(Terminal /\ obs.sigclass # "any" /\ obs.verify = "ok")
 NeverNodeOk      == ~(Terminal /\ obs.udsrc = "node" /\ obs.verify = "ok")
 NeverReorgOk     == ~(Terminal /\ obs.node = "reorg" /\ obs.verify = "ok")
